@@ -264,7 +264,24 @@ def resolve_unwindset(ob, src):
     return ["-Z", "unstable-options", "--cbmc-args", "--unwindset", ",".join(pairs)]
 
 
+def lost_anchor(ob, src):
+    """Obligation-level textual anchors: (file, regex, expected number of matching lines).  A contract that is only meaningful
+    relative to a scheme implemented elsewhere (the look-up's index expression vs. the table fill loops) is reported as
+    undecided, not as a violation, when that other text no longer has the shape the contract was written against."""
+    for rel, rx, want in ob.get("anchors", []):
+        try:
+            n = sum(1 for l in open(os.path.join(src, rel)).read().split("\n") if re.search(rx, l))
+        except OSError:
+            n = -1
+        if n != want:
+            return "lost anchor: %r matches %d lines of %s (expected %d)" % (rx, n, rel, want)
+    return None
+
+
 def run_obligation(ob, src):
+    la = lost_anchor(ob, src)
+    if la:
+        return {"ob": ob, "status": "undecided", "detail": la, "res": {"wall": 0.0, "out": "", "killed": None, "peak_rss": 0}}
     extra = resolve_unwindset(ob, src)
     if extra is None:
         return {"ob": ob, "status": "undecided", "detail": "lost anchor: no loop matched the unwindset rules",
@@ -570,6 +587,9 @@ def cmd_check(pid, tier, repo, only, keep, jobs):
 
 def run_smt(o, src):
     """Self-generated verification conditions over constants extracted from the source, discharged by z3."""
+    la = lost_anchor(o, src)
+    if la:
+        return {"ob": o, "status": "undecided", "detail": la, "res": {"wall": 0.0, "out": "", "killed": None, "peak_rss": 0}}
     cmd = [x.replace("{src}", src) for x in o["cmd"]]
     res = run_limited(cmd, VERIF, o.get("timeout", 900), 8 * 2**30)
     out = res["out"] or ""
